@@ -1085,6 +1085,9 @@ class MindsDBParser(Parser):
     @_('select OFFSET constant')
     def select(self, p):
         select = p.select
+        if not isinstance(select, Select):
+            # (SELECT ... UNION SELECT ...) OFFSET n: the combining query has no offset
+            raise ParsingException(f'OFFSET is not supported after {select.operation} in parentheses')
         if select.offset is not None:
             raise ParsingException(f'OFFSET already specified for this query')
         ensure_select_keyword_order(select, 'OFFSET')
